@@ -131,3 +131,4 @@
 (declare-fun jhas (BSeq BSeq) Bool)
 (declare-fun statustext (Int) BSeq)
 (declare-fun contains (BSeq BSeq) Bool)
+(assert (forall ((s BSeq)) (! (<= (len (trim s)) (len s)) :pattern ((trim s)))))
